@@ -166,6 +166,10 @@ PROPS["C01"] = {
          "preempts": {"quick": 2, "thorough": 3}, "params": {"quick": {"RACE": 1}, "thorough": {"RACE": 1}}},
         {"name": "addressing", "pkg": "root", "entry": "VerifAddressing", "reach": ["addressed"],
          "params": {"quick": {"KL": 2, "KEYL": 3}, "thorough": {"KL": 3, "KEYL": 4}}},
+        {"name": "list_regions", "pkg": "root", "entry": "VerifListRegions", "reach": ["listed"],
+         "stubs": {"(*github.com/tsuna/gohbase.client).SendRPC": "github.com/tsuna/gohbase.vMetaSendRPC",
+                   "google.golang.org/protobuf/proto.Unmarshal": "github.com/tsuna/gohbase/region.vUnmarshal"},
+         "params": {"quick": {}, "thorough": {}}},
         {"name": "meta_lookup", "pkg": "root", "entry": "VerifMetaLookup", "reach": ["accepted", "rejected", "not-found"],
          "stubs": {"(*github.com/tsuna/gohbase.client).SendRPC": "github.com/tsuna/gohbase.vMetaSendRPC",
                    "google.golang.org/protobuf/proto.Unmarshal": "github.com/tsuna/gohbase/region.vUnmarshal"},
@@ -196,8 +200,8 @@ PROPS["C07"] = {
          "preempts": {"quick": 1, "thorough": 2},
          "params": {"quick": {"PROP": 7, "N": 2, "TRIES": 2, "LOOKUPFAIL": 0, "CANCEL": 0}, "thorough": {"PROP": 7, "N": 2, "TRIES": 3, "LOOKUPFAIL": 0, "CANCEL": 0}}},
         {"name": "sendbatch_cancel", "pkg": "root", "entry": "VerifSendBatch", "stubs": BATCH_STUBS, "reach": ["returned"], "native_retries": 30,
-         "preempts": {"quick": 1, "thorough": 2},
-         "params": {"quick": {"PROP": 7, "N": 2, "TRIES": 2, "LOOKUPFAIL": 0, "CANCEL": 1}, "thorough": {"PROP": 7, "N": 3, "TRIES": 2, "LOOKUPFAIL": 1, "CANCEL": 1}}},
+         "preempts": {"quick": 1, "thorough": 1},
+         "params": {"quick": {"PROP": 7, "N": 2, "TRIES": 2, "LOOKUPFAIL": 0, "CANCEL": 1}, "thorough": {"PROP": 7, "N": 2, "TRIES": 2, "LOOKUPFAIL": 1, "CANCEL": 1}}},
     ],
 }
 
@@ -377,6 +381,7 @@ PROPS["C05"] = {
         {"name": "get_fields", "pkg": "hrpc", "entry": "VerifGetFields", "reach": ["get"], "params": {"quick": {}, "thorough": {}}},
         {"name": "scan_fields", "pkg": "hrpc", "entry": "VerifScanFields", "reach": ["scan-open", "scan-continuation"], "params": {"quick": {}, "thorough": {}}},
         {"name": "mutate_fields", "pkg": "hrpc", "entry": "VerifMutateFields", "reach": ["mutate"], "params": {"quick": {}, "thorough": {}}},
+        {"name": "time_options", "pkg": "hrpc", "entry": "VerifTimeOptions", "reach": ["times"], "params": {"quick": {}, "thorough": {}}},
         {"name": "resend_after_region_change", "pkg": "region", "entry": "VerifResend", "stubs": FRAME_STUBS, "reach": ["resent"],
          "params": {"quick": {}, "thorough": {}}},
         {"name": "multi_frame_gets", "pkg": "region", "entry": "VerifMultiFrameGets", "stubs": FRAME_STUBS, "reach": ["multi"], "native_retries": 10,
@@ -449,7 +454,7 @@ PROPS["C09"] = {
 }
 
 PROPS["C04"] = {
-    "files": EST_FILES + ["region/fakes.go", "region/c04_classify.go"], "native_files": ["root/c09_establish_native.go"], "native_cuts": EST_CUTS,
+    "files": EST_FILES + ["region/fakes.go", "region/c04_classify.go", "root/c04_api.go"], "native_files": ["root/c09_establish_native.go"], "native_cuts": EST_CUTS,
     "claim": "Safety part only. exceptionToError over EVERY class-name string up to L bytes maps the 12 listed classes (and "
              "java.io.IOException with its log-closed stack) to their retry class and every other name to a plain error. One request through SendRPC for a cached or unknown region, every script of up to FAULTS cluster "
              "misbehaviours (request answered not-serving / server-error / retry-later, dial failure, probe failures, hbase:meta "
@@ -461,6 +466,7 @@ PROPS["C04"] = {
                "region level in C11's receive jobs for the listed classes)",
     "assumptions": ["(*client).lookupRegion is cut (scripted hbase:meta / ZooKeeper)", "fake region clients; back-off via the repository's override hook"],
     "jobs": [
+        {"name": "public_api", "pkg": "root", "entry": "VerifPublicAPI", "reach": ["api"], "params": {"quick": {}, "thorough": {}}},
         {"name": "establish_faults", "steps": 40000, "timeout_s": {"quick": 300, "thorough": 1500}, "pkg": "root", "entry": "VerifEstablish", "stubs": EST_STUBS, "reach": ["re-established", "replaced-or-gone"],
          "params": {"quick": {"FAULTS": 2}, "thorough": {"FAULTS": 4}}},
         {"name": "sendrpc_faults", "steps": 40000, "timeout_s": {"quick": 300, "thorough": 1500}, "pkg": "root", "entry": "VerifSendRPCFaults", "stubs": EST_STUBS, "reach": ["succeeded", "table-gone"],
@@ -478,8 +484,10 @@ RETRY_STUBS = {"(*github.com/tsuna/gohbase.client).getRegionAndClientForRPC": "g
 RETRY_STUBS2 = {"(*github.com/tsuna/gohbase.client).getRegionAndClientForRPC": "github.com/tsuna/gohbase.vRetryLocate2"}
 
 PROPS["C17"] = {
-    "files": ["root/fakes.go", "root/c08_cache.go", "root/c01_routing.go", "root/c09_establish.go", "root/c17_backoff.go"],
-    "native_files": ["root/c17_backoff_native.go", "root/c09_establish_native.go"], "native_cuts": BATCH_CUTS + EST_CUTS,
+    "files": ["root/fakes.go", "root/c08_cache.go", "root/c01_routing.go", "root/c09_establish.go", "root/c17_backoff.go",
+              "root/c01_meta.go", "region/fakes.go", "region/c11_info.go"],
+    "native_files": ["root/c17_backoff_native.go", "root/c09_establish_native.go", "root/c01_meta_native.go"],
+    "native_cuts": BATCH_CUTS + EST_CUTS + [{"file": "rpc.go", "from": "func (c *client) SendRPC(", "to": "func (c *client) SendRPCOrig("}],
     "claim": "For EVERY non-negative 64-bit back-off value sleepAndIncreaseBackoff requests a wait of exactly that value (none for 0, "
              "returning 16 ms) and returns 2b below 5 s, b+5 s below 30 s, b from then on; with time standing still it returns only "
              "through cancellation, with the context's error; 17 consecutive calls reproduce the closed-form schedule. For a single "
@@ -487,7 +495,7 @@ PROPS["C17"] = {
              "retry-later answer is followed by one wait, waits follow the schedule in order, at most two connection-level failures "
              "are retried without a wait.",
     "outside": "wall-clock accuracy of time.After; request rate as a real-time quantity; more than ATTEMPTS consecutive failures; the "
-               "the lookupAllRegions loop (same shape as lookupRegion, which lookup_pacing runs against a failing / silent ZooKeeper)",
+               "lookups that time out inside hbase:meta scans (lookup_pacing: ZooKeeper failing or silent; lookup_all_pacing: hbase:meta failing)",
     "assumptions": ["time.After is modelled: it records the requested duration and may fire at any later scheduling point",
                     "getRegionAndClientForRPC is cut for the pacing jobs (the region is always found)"],
     "jobs": [
@@ -509,6 +517,10 @@ PROPS["C17"] = {
          "params": {"quick": {"ATTEMPTS": 3, "FAULTS": 0}, "thorough": {"ATTEMPTS": 6, "FAULTS": 0}}},
         {"name": "lookup_pacing", "steps": 40000, "pkg": "root", "entry": "VerifLookupPacing", "reach": ["paced"], "native_retries": 10, "preempts": {"quick": 1, "thorough": 2},
          "params": {"quick": {"ATTEMPTS": 3}, "thorough": {"ATTEMPTS": 5}}},
+        {"name": "lookup_all_pacing", "steps": 40000, "pkg": "root", "entry": "VerifLookupAllPacing", "reach": ["paced"],
+         "stubs": {"(*github.com/tsuna/gohbase.client).SendRPC": "github.com/tsuna/gohbase.vMetaSendRPC",
+                   "google.golang.org/protobuf/proto.Unmarshal": "github.com/tsuna/gohbase/region.vUnmarshal"},
+         "params": {"quick": {"ATTEMPTS": 3}, "thorough": {"ATTEMPTS": 6}}},
         {"name": "batch_pacing_two_calls", "pkg": "root", "entry": "VerifBatchPacing", "stubs": RETRY_STUBS2, "reach": ["paced", "waited"],
          "params": {"quick": {"ATTEMPTS": 3}, "thorough": {"ATTEMPTS": 5}}},
     ],
